@@ -35,11 +35,12 @@ func genProducer(r *rng, n int, tier string, emit func(string)) {
 		"cfg errs ; report 1 0 plain boom ~ ~ ; report 1 0 fb E_X msg ~ ; report 0 1 plain x ~ ~",
 		"cfg ~ ; report 1 1 plain boom ~ ~",
 		"cfg t ; req a 01 ; req b 02 ; req ~ 03 ; req c 04",
+		"cfg t bp ; req a 01 ; req b 02 ; req ~ 03 ; req c 04 ; req ~ 05 ; req ~ 06 ; report 1 1 plain boom ~ ~ ; report 1 1 fb E_X msg ~",
 	} {
 		emit(c)
 	}
 	for i := 0; i < n; i++ {
-		ops := []string{"cfg " + r.pickS("t", "t", "events", "~")}
+		ops := []string{"cfg " + r.pickS("t", "t", "events", "~") + r.pickS("", "", " bp")}
 		for j := r.intn(6) + 1; j > 0; j-- {
 			switch x := r.intn(100); {
 			case x < 45:
@@ -77,11 +78,39 @@ type unserialisable struct {
 func execProducer(input string) string {
 	segs := strings.Split(input, ";")
 	hd := strings.Fields(segs[0])
-	if len(hd) != 2 || hd[0] != "cfg" {
+	if (len(hd) != 2 && !(len(hd) == 3 && hd[2] == "bp")) || hd[0] != "cfg" {
 		return "bad-input"
 	}
 	cfgTopic := untilde(hd[1])
 	sp := newScriptedProducer()
+	readCh := sp.ch
+	var stopDrain, drained chan struct{}
+	if len(hd) == 3 {
+		// backpressure: the produce channel holds one record and the client takes them out slowly
+		sp.ch = make(chan *kafka.Message, 1)
+		collected := make(chan *kafka.Message, 4096)
+		stopDrain, drained = make(chan struct{}), make(chan struct{})
+		go func(in chan *kafka.Message) {
+			defer close(drained)
+			for {
+				select {
+				case m := <-in:
+					time.Sleep(150 * time.Microsecond)
+					collected <- m
+				case <-stopDrain:
+					for {
+						select {
+						case m := <-in:
+							collected <- m
+						default:
+							return
+						}
+					}
+				}
+			}
+		}(sp.ch)
+		readCh = collected
+	}
 	kp := kafkaproducer.VerifNewKafkaProducer(sp, cfgTopic)
 	ep := kafkaproducer.VerifNewErrorProducer(sp, cfgTopic)
 	type pending struct {
@@ -169,6 +198,10 @@ func execProducer(input string) string {
 			return "bad-input"
 		}
 	}
+	if stopDrain != nil {
+		close(stopDrain)
+		<-drained
+	}
 	// read the records back, in order
 	var outs []string
 	for _, p := range ps {
@@ -178,7 +211,7 @@ func execProducer(input string) string {
 		}
 		var km *kafka.Message
 		select {
-		case km = <-sp.ch:
+		case km = <-readCh:
 		default:
 			outs = append(outs, "ok norecord")
 			continue
@@ -224,7 +257,7 @@ func execProducer(input string) string {
 		outs = append(outs, fmt.Sprintf("ok t=%s keys=%s ekeys=%s code=%s msg=%s event=%s children=%s", topic, strings.Join(keys, ","), strings.Join(ekeys, ","), hexS(code), hexS(msg), event, children))
 	}
 	select {
-	case <-sp.ch:
+	case <-readCh:
 		outs = append(outs, "extra-record")
 	default:
 	}
